@@ -497,6 +497,9 @@ def apply_op(ds, ref, op, pool, ys, fns, rng):
     if k == 'cache':
         if not R.indexable:
             return _must_refuse(lambda: ds.cache(), R)
+        if R.keys is not None and not keys_unique(R.keys):
+            # CacheDataset iterates keys via keys(): with duplicate keys items() refuses (uniqueness AssertionError)
+            return ds.cache(), R.clone(has_items=False)
         return ds.cache(), R
     if k == 'ecache':
         if not R.iter_ok:
